@@ -16,6 +16,9 @@ LEVEL = "model_checking"
 WANT = ("accounting",)
 
 
+STR_REGS = {**c03.PROG_REGS, 17: 4, 10: c03.BASE + 64}
+
+
 def prog_shard(shard):
     length, first, ncfg = shard
     A = c03.mem_alphabet()
@@ -23,55 +26,65 @@ def prog_shard(shard):
     for tail in itertools.product(range(len(A)), repeat=length - 1):
         idx = (first,) + tail
         prog = [A[i] for i in idx]
-        pd = {4 * i: ins for i, ins in enumerate(prog)}
-        r, m = rv.ref_state(c03.PROG_REGS, c03.PROG_WORDS)
-        m.log = []
-        exp = rv32.run_seq(pd, r, m, 40)
-        if exp.err is not None:
-            p.counters["skipped-fault"] += 1
-            continue
-        for ci in range(ncfg):
-            ib, bb, ways, kind, policy = c03.PROG_CACHES[ci]
-            pen = (0, 3, 1, 5, 2, 7)[ci]
-            ref = RefCache(ib, bb, ways, kind, policy, pen)
-            extra = 0
-            for k, a, n in m.log:
-                # a print-string ecall reads bytes uncounted
-                _h, e, _ev = ref.access(a, k == "w", k != "u")
-                extra += e
-            stats = []
-            for mode in (rv.SINGLE, rv.FIVE):
-                sim = rv.make_sim(mode, prog, c03.PROG_REGS, c03.PROG_WORDS, dcache=rv.cache_opts(ib, bb, ways, kind, policy, pen))
-                got = rv.run(sim, 400)
-                p.evaluations += 1
-                st = sim.get_data_cache_stats()
-                stats.append((st["accesses"], st["hits"]))
-                bad = []
-                if got.exc is not None or got.err is not None:
-                    bad.append(("exception", f"cached run failed: {got.exc or got.err}"))
-                else:
-                    if int(st["accesses"]) != exp.loads + exp.stores:
-                        bad.append(("program-accesses", f"accesses={st['accesses']}, program executed {exp.loads} loads + {exp.stores} stores"))
-                    if int(st["hits"]) != ref.hits:
-                        bad.append(("program-hits", f"hits={st['hits']}, reference cache on the program's access stream: {ref.hits}"))
-                    if mode == rv.SINGLE and got.cycles != exp.ic + extra:
-                        bad.append(("program-penalty", f"single-cycle cycles={got.cycles}, instructions {exp.ic} + penalties {extra}"))
-                for f, d in bad:
-                    p.violation(dict(oracle="cached-program", field=f), dict(kind="cached-program", prog=[list(i) for i in prog], ci=ci),
-                                f"[{rv.prog_text(prog)}] {kind}/{policy} i{ib}b{bb}w{ways} pen={pen} {mode}: {d}", size=(length, idx, ci))
-            if stats[0] != stats[1]:
-                p.violation(dict(oracle="cached-program", field="mode-mismatch"), dict(kind="cached-program", prog=[list(i) for i in prog], ci=ci),
-                            f"[{rv.prog_text(prog)}] {kind}/{policy} i{ib}b{bb}w{ways}: (accesses, hits) single-cycle {stats[0]} five-stage {stats[1]}",
-                            size=(length, idx, ci))
-        if ref.hits and ref.accesses > ref.hits:
-            p.nontrivial += 1
-        if "eviction" in ref.events:
-            p.counters["program-eviction"] += 1
-        if any(k == "u" for k, _a, _n in m.log):
-            p.counters["program-uncounted-read"] += 1
+        # programs with an ecall are also run with a7 = 4 and a0 = a string address preset (a print-string right behind stores)
+        for regs_in in ((c03.PROG_REGS, STR_REGS) if any(i[0] == "ecall" for i in prog) else (c03.PROG_REGS,)):
+            one_program(p, prog, idx, regs_in, ncfg)
     if first == 0:
         p.sample(dict(kind="cached-program", prog=[list(A[(2 * i) % len(A)]) for i in range(length)], ci=0))
     return p
+
+
+def one_program(p, prog, idx, regs_in, ncfg):
+    length = len(prog)
+    pd = {4 * i: ins for i, ins in enumerate(prog)}
+    r, m = rv.ref_state(regs_in, c03.PROG_WORDS)
+    m.log = []
+    exp = rv32.run_seq(pd, r, m, 40)
+    if exp.err is not None:
+        p.counters["skipped-fault"] += 1
+        return
+    preset = regs_in is STR_REGS
+    if preset:
+        p.counters["print-string-with-preset-registers"] += 1
+    tag = " a7=4 a0=string" if preset else ""
+    for ci in range(ncfg):
+        ib, bb, ways, kind, policy = c03.PROG_CACHES[ci]
+        pen = (0, 3, 1, 5, 2, 7)[ci]
+        ref = RefCache(ib, bb, ways, kind, policy, pen)
+        extra = 0
+        for k, a, n in m.log:
+            # a print-string ecall reads bytes uncounted
+            _h, e, _ev = ref.access(a, k == "w", k != "u")
+            extra += e
+        stats = []
+        case = dict(kind="cached-program", prog=[list(i) for i in prog], ci=ci, str_regs=preset)
+        for mode in (rv.SINGLE, rv.FIVE):
+            sim = rv.make_sim(mode, prog, regs_in, c03.PROG_WORDS, dcache=rv.cache_opts(ib, bb, ways, kind, policy, pen))
+            got = rv.run(sim, 400)
+            p.evaluations += 1
+            st = sim.get_data_cache_stats()
+            stats.append((st["accesses"], st["hits"]))
+            bad = []
+            if got.exc is not None or got.err is not None:
+                bad.append(("exception", f"cached run failed: {got.exc or got.err}"))
+            else:
+                if int(st["accesses"]) != exp.loads + exp.stores:
+                    bad.append(("program-accesses", f"accesses={st['accesses']}, program executed {exp.loads} loads + {exp.stores} stores"))
+                if int(st["hits"]) != ref.hits:
+                    bad.append(("program-hits", f"hits={st['hits']}, reference cache on the program's access stream: {ref.hits}"))
+                if mode == rv.SINGLE and got.cycles != exp.ic + extra:
+                    bad.append(("program-penalty", f"single-cycle cycles={got.cycles}, instructions {exp.ic} + penalties {extra}"))
+            for f, d in bad:
+                p.violation(dict(oracle="cached-program", field=f), case, f"[{rv.prog_text(prog)}]{tag} {kind}/{policy} i{ib}b{bb}w{ways} pen={pen} {mode}: {d}", size=(length, idx, ci))
+        if stats[0] != stats[1]:
+            p.violation(dict(oracle="cached-program", field="mode-mismatch"), case,
+                        f"[{rv.prog_text(prog)}]{tag} {kind}/{policy} i{ib}b{bb}w{ways}: (accesses, hits) single-cycle {stats[0]} five-stage {stats[1]}", size=(length, idx, ci))
+    if ref.hits and ref.accesses > ref.hits:
+        p.nontrivial += 1
+    if "eviction" in ref.events:
+        p.counters["program-eviction"] += 1
+    if any(k == "u" for k, _a, _n in m.log):
+        p.counters["program-uncounted-read"] += 1
 
 
 PRELOAD_TEXTS = [
@@ -191,7 +204,8 @@ def replay(case):
     prog = [tuple(i) for i in case["prog"]]
     ci = case["ci"]
     pd = {4 * i: ins for i, ins in enumerate(prog)}
-    r, m = rv.ref_state(c03.PROG_REGS, c03.PROG_WORDS)
+    regs_in = STR_REGS if case.get("str_regs") else c03.PROG_REGS
+    r, m = rv.ref_state(regs_in, c03.PROG_WORDS)
     m.log = []
     exp = rv32.run_seq(pd, r, m, 40)
     ib, bb, ways, kind, policy = c03.PROG_CACHES[ci]
@@ -203,7 +217,7 @@ def replay(case):
     res = []
     stats = []
     for mode in (rv.SINGLE, rv.FIVE):
-        sim = rv.make_sim(mode, prog, c03.PROG_REGS, c03.PROG_WORDS, dcache=rv.cache_opts(ib, bb, ways, kind, policy, pen))
+        sim = rv.make_sim(mode, prog, regs_in, c03.PROG_WORDS, dcache=rv.cache_opts(ib, bb, ways, kind, policy, pen))
         got = rv.run(sim, 400)
         st = sim.get_data_cache_stats()
         stats.append((st["accesses"], st["hits"]))
@@ -256,7 +270,7 @@ def run(ctx):
         t0 = time.time()
         part = pmap(prog_shard, [(L, f, 6) for f in range(len(c03.mem_alphabet()))])
         ctx.space(f"cached-programs-len{L}", part, t0, length=L, cache_configs=6, modes=2)
-    ctx.require("program-eviction", "program-uncounted-read")
+    ctx.require("program-eviction", "program-uncounted-read", "print-string-with-preset-registers")
     t0 = time.time()
     part = pmap(preload_shard, list(range(len(PRELOAD_TEXTS))))
     ctx.space("parser-preloads", part, t0, texts=len(PRELOAD_TEXTS), cache_configs=6, modes=2)
